@@ -453,8 +453,12 @@ impl cob::store::Cob for Thread {
     ) -> Result<(), Error> {
         let identity = op.identity.ok_or(Error::MissingIdentity)?;
         let concurrent = concurrent.into_iter().collect::<Vec<_>>();
+        // Nb. The actions are applied to a copy of the state, which replaces the
+        // state only if all of them succeed: a rejected operation has no effect.
+        let mut thread = self.clone();
+
         for action in op.actions {
-            self.action(
+            thread.action(
                 action,
                 op.id,
                 op.author,
@@ -464,6 +468,8 @@ impl cob::store::Cob for Thread {
                 repo,
             )?;
         }
+        *self = thread;
+
         Ok(())
     }
 }
